@@ -13,6 +13,14 @@ ENGINES = [
 ]
 
 CHECKS = [
+    {"id": "C10", "engine": "E3 algebraic value numbering",
+     "technique": "abstract evaluation with the tilt matrix of tools.detect_tilt; geometric identities (collinearity, coplanarity) as normal-form identities",
+     "text": "det_coor and det_coor2 are shown to give the same pixel for the same ray by substitution; the pixel mapped back by "
+             "detector_to_lab is shown to lie on the ray from the grain position along (cos 2t, -sin 2t sin eta, sin 2t cos eta) "
+             "(cross product identically zero) and in the detector plane, with R_tilt the product Rx Ry Rz built by "
+             "tools.detect_tilt so that orthonormality is available as trigonometric identities. Holds for every distance, "
+             "pixel size, centre, tilt and grain position; floating point and the sign of the ray parameter are not decided.",
+     "note": "Trusted: C03 (detect_tilt); numpy sum/dot/array; the 2*pi convention of g-vectors in detector.py."},
     {"id": "C07", "engine": "E3 algebraic value numbering",
      "technique": "abstract evaluation of StructureFactor on a symbolic structure; normal-form equality with the sum whose terms carry the transformation laws",
      "text": "StructureFactor is evaluated on symbolic rotation parts, translations, positions, anisotropic tensors and hkl "
